@@ -141,7 +141,7 @@ func validFrame(t *rapid.T, di *dialectInfo, o gen.FrameOpts, key *[32]byte) (re
 
 func TestC02Gate(t *testing.T) {
 	rec := evid.New(t, "C02", "a reference-encoded, reference-checksummed dialect message must be delivered decoded; every single-bit flip of its bytes (plus byte substitutions, checksum swaps, foreign CRC_EXTRA) is fed to the reader and judged by the consumed-span oracle: a frame is delivered only if the bytes consumed are a frame the reference accepts; non-trivial = a damaged frame; distinct by hash of the damaged bytes")
-	rec.Require("flip-header", "flip-payload", "flip-checksum", "valid-delivered", "foreign-crc-extra", "flip-signature-block")
+	rec.Require("flip-header", "flip-payload", "flip-checksum", "valid-delivered", "foreign-crc-extra", "flip-signature-block", "id>=65536")
 	dpool := pool(t)
 	maxFlipLen := 80
 	evid.Check(t, rec, evid.N(5000, 15000), func(t *rapid.T) {
@@ -167,6 +167,9 @@ func TestC02Gate(t *testing.T) {
 			t.Fatalf("a well-formed frame with the reference checksum was not delivered: %s (%s) bytes %x; delivered %d", gen.Describe(f), lay.MsgName, data, len(del))
 		}
 		rec.Case(false, 0, "valid-delivered")
+		if f.ID >= 65536 {
+			rec.Class("id>=65536", 1)
+		}
 		hdrLen := 6
 		if f.V2 {
 			hdrLen = 10
